@@ -10,7 +10,7 @@
 #include "core/AsmContext.h"
 #include "core/print_error.h"
 
-extern "C" { int g_errors; }
+extern "C" { int g_errors; int g_range_errors; }
 
 #ifndef KEEP_REAL_CTORS
 Memory::Memory() {}
@@ -32,7 +32,7 @@ void print_error_opcount(AsmContext *, const char *) { g_errors++; }
 void print_error_illegal_operands(AsmContext *, const char *) { g_errors++; }
 void print_error_illegal_expression(AsmContext *, const char *) { g_errors++; }
 void print_error_illegal_register(AsmContext *, const char *) { g_errors++; }
-void print_error_range(AsmContext *, const char *, int64_t, int64_t) { g_errors++; }
+void print_error_range(AsmContext *, const char *, int64_t, int64_t) { g_errors++; g_range_errors++; }
 void print_error_unknown_operand_combo(AsmContext *, const char *) { g_errors++; }
 void print_error_internal(AsmContext *, const char *, int) { g_errors++; }
 void print_already_defined(AsmContext *, char *) { g_errors++; }
